@@ -57,55 +57,5 @@ theorem newIdentityWithoutData_tie {υ : Type} (nilυ ui : υ) (name : Bytes) :
 theorem identityRecipient_client_tie {υ : Type} (n e : Bytes) (ui : υ) :
     plugin_Identity_Recipient ⟨n, e, ui⟩ = .ok ⟨n, e, ui, true⟩ := rfl
 
-/-- CR and LF are refused before the decoder is asked; otherwise the answer is the decoder's -/
-theorem decodeString_tie {ε : Type} (Dec : ε → Bytes → Go.M (Bytes × Option Go.Err)) (b64 : ε) (s : Bytes) :
-    format_DecodeString Dec b64 s =
-      if s.any (fun c => c = Format.nl || c = Format.cr) = true then .ok ([], some ⟨"format.DecodeString", 0, []⟩)
-      else Dec b64 s := by
-  unfold format_DecodeString
-  have hc : Go.bytes_ContainsAny s [10, 13] = s.any (fun c => c = Format.nl || c = Format.cr) := by
-    simp only [Go.bytes_ContainsAny, Format.nl, Format.cr]
-    congr 1
-    funext c
-    simp only [List.contains, List.elem]
-    by_cases h1 : c = 10
-    · subst h1; rfl
-    · by_cases h2 : c = 13
-      · subst h2; rfl
-      · have e1 : (c == 10) = false := by simp [h1]
-        have e2 : (c == 13) = false := by simp [h2]
-        simp [e1, e2, h1, h2]
-  simp only [hc, bind, Except.bind, pure, Except.pure]
-  split
-  · rfl
-  · cases Dec b64 s <;> rfl
-
-/-- with a decoder that is the model's strict unpadded base64, `format.DecodeString` is the model's `decodeString` -/
-theorem decodeString_model {ε : Type} (Dec : ε → Bytes → Go.M (Bytes × Option Go.Err)) (b64 : ε) (eD : Go.Err)
-    (hDec : ∀ s, Dec b64 s = .ok (match B64.decRaw s with | some b => (b, none) | none => ([], some eD))) (s : Bytes) :
-    ∃ r, format_DecodeString Dec b64 s = .ok r ∧
-      match Format.decodeString s with
-      | some b => r = (b, none)
-      | none => r.1 = [] ∧ r.2 ≠ none := by
-  rw [decodeString_tie, hDec]
-  unfold Format.decodeString
-  split
-  · exact ⟨_, rfl, rfl, by simp⟩
-  · cases B64.decRaw s with
-    | some b => exact ⟨_, rfl, rfl⟩
-    | none => exact ⟨_, rfl, rfl, by simp⟩
-
-/-- the tag of an SSH key: SHA-256 of its wire form, first four bytes, unpadded base64 -/
-theorem sshFingerprint_tie {π : Type} (P : Prims) (wire : π → Bytes)
-    (Sum : Bytes → Go.M Bytes) (hSum : ∀ b, Sum b = .ok (P.sha256 b)) (hLen : ∀ b, (P.sha256 b).length = 32)
-    (Mar : π → Go.M Bytes) (hMar : ∀ k, Mar k = .ok (wire k))
-    (Enc : Bytes → Go.M Bytes) (hEnc : ∀ b, Enc b = .ok (B64.encRaw b)) (k : π) :
-    agessh_sshFingerprint Sum Mar Enc k = .ok (sshTag P (wire k)) := by
-  unfold agessh_sshFingerprint sshTag
-  have hs : Go.slice (P.sha256 (wire k)) 0 4 = .ok ((P.sha256 (wire k)).take 4) := by
-    have := hLen (wire k)
-    simp [Go.slice, Go.len, this]
-  simp only [hMar, hSum, bind, Except.bind, pure, Except.pure, hs, hEnc]
-
 end GoTie
 end AgeModel
